@@ -122,7 +122,7 @@ package leader
 //@ lockinv kvElection.mu C02+C09.claim_implies_running:  isLeader ==> (ctx != nil && !stopped)
 //@ lockinv kvElection.mu C18+C02+C09.stopped_implies_state:  stopped ==> state == "STOPPED"
 //@ lockinv kvElection.mu C09+C19.cancel_set_with_ctx:    ctx != nil && !stopped ==> cancel != nil
-//@ lockinv kvElection.mu C19+C03+C07.term_cancel_set:            isLeader ==> termCancel != nil
+//@ lockinv kvElection.mu C19+C03+C07+C02.term_cancel_set:            isLeader ==> termCancel != nil
 //@ lockinv kvElection.mu C01+C02.leader_has_written:         isLeader ==> revSet
 
 // Hooks that apply in every function: whoever stores the claim refreshes the
@@ -139,7 +139,7 @@ package leader
 //@   on store kvElection.isLeader as s when !s.value set $claimCleared = true
 //@   on call updateIsLeaderMetric set $gaugeFresh = true
 //@   on call kvElection.cancel assert C19+C09.election_ctx_cancelled_only_by_stop_paths: caller.mayCancelElection
-//@   on call kvElection.termCancel assert C03+C07+C19+C02.term_ctx_cancelled_only_when_claim_cleared: caller.mayCancelTerm
+//@   on call kvElection.termCancel assert C03+C07+C19+C02+C08.term_ctx_cancelled_only_when_claim_cleared: caller.mayCancelTerm
 //@   ghost $tokenDrawn Bool = false
 //@   ghost $lastDrawn Int = 0
 //@   on call uuid.String as u set $tokenDrawn = u.random
@@ -567,8 +567,8 @@ package leader
 //@   on store kvElection.isLeader as s when s.value set claimed = true
 //@   ensures C08.promote_once: scalls(onPromote) == ((claimed && promoteSet) ? 1 : 0)
 //@   ensures C08.promotion_goroutine_calls_back: scalls(onPromote) == ((claimed && promoteSet) ? 1 : 0)
-//@   ensures C09.no_promote_after_stop: stateL == "STOPPED" || ctxNilL ==> !claimed && scalls(heartbeatLoop) == 0 && scalls(validationLoop) == 0 && scalls(onPromote) == 0
-//@   ensures C02+C06+C03+C07.claims_when_running: stateL != "STOPPED" && !ctxNilL && !wasLeaderAtLock ==> claimed && scalls(heartbeatLoop) == 1 && scalls(validationLoop) == 1
+//@   ensures C09+C19.no_promote_after_stop: stateL == "STOPPED" || ctxNilL ==> !claimed && scalls(heartbeatLoop) == 0 && scalls(validationLoop) == 0 && scalls(onPromote) == 0
+//@   ensures C02+C06+C03+C07+C19.claims_when_running: stateL != "STOPPED" && !ctxNilL && !wasLeaderAtLock ==> claimed && scalls(heartbeatLoop) == 1 && scalls(validationLoop) == 1
 //@   ensures C03+C05+C07+C08.no_second_term_on_top_of_a_term: wasLeaderAtLock ==> !claimed && scalls(heartbeatLoop) == 0 && scalls(validationLoop) == 0 && scalls(onPromote) == 0
 
 // becomeFollower() and settleAsFollower() are thin unexported wrappers: always inlined into
@@ -597,14 +597,14 @@ package leader
 //@   on store kvElection.watcherRunning as s when !inspawn() set wrArmed = s.value
 //@   on call watchLoop assert C13+C06.one_watch_loop_at_a_time: inspawn() && !watcherSeen && wrArmed
 //@   on unlock kvElection.mu assert C03+C02.claim_cleared_at_unlock: !unlessLeader ==> !e.isLeader
-//@   on store kvElection.isLeader assert C07+C08+C03.settling_never_clears_a_claim: unlessLeader ==> !cleared
+//@   on store kvElection.isLeader assert C07+C08+C03+C18+C19.settling_never_clears_a_claim: unlessLeader ==> !cleared
 //@   ensures C07.settling_reports_nothing_cleared: unlessLeader ==> !result
-//@   ensures C08+C03.reports_cleared: !unlessLeader ==> result == cleared
+//@   ensures C08+C03+C19.reports_cleared: !unlessLeader ==> result == cleared
 //@   ensures C19.cancelled_on_demotion: cleared && !unlessLeader ==> termCancelled
 //@   ghost stateL Int = 0
 //@   on lock kvElection.mu set stateL = e.state
 //@   ensures C06.failed_round_rearms: stateL != "STOPPED" && !(unlessLeader && cleared) && ctxSeen && !watcherSeen ==> scalls(watchLoop) == 1
-//@   ensures C09+C02.stopped_stays_stopped: stateL == "STOPPED" ==> scalls(watchLoop) == 0 && calls(recordTransition) == 0
+//@   ensures C09+C02+C18.stopped_stays_stopped: stateL == "STOPPED" ==> scalls(watchLoop) == 0 && calls(recordTransition) == 0
 
 //@ func (e *kvElection) Stop()
 //@   tags C09 C08 C18 C01 C20
